@@ -40,7 +40,7 @@ from cfdppy.mib import (
 )
 from cfdppy.request import PutRequest
 
-from . import vclock, wire
+from . import audit, vclock, wire
 from .rec import EventLog, MemFilestore, RecFaultHandler, RecFilestore, RecQueue, RecUser, tid_key
 
 PROTO_EXC = tuple(
@@ -83,7 +83,7 @@ DEFAULT_CFG: dict[str, Any] = {
     "size": 10,
     "content": 0,  # seed of the content generator, or a str pattern name
     "dest": "file",  # file | dir | existing | dir_existing (directory which already holds a file named like the source)
-    "fs": "native",  # native | mem
+    "fs": "native",  # native | mem (paths do not exist on the host) | mem_decoy (paths exist on the host with other content)
     "ind": [True, True, True, True],  # eof_sent, eof_recv, file_segment_recvd, transaction_finished
     "req_mode": "cfg",  # 'cfg' -> same as mode given in the request; None -> from MIB
     "req_closure": "cfg",
@@ -169,9 +169,11 @@ class Endpoint:
     def _call(self, api: str, fn, arg_desc, *args):
         before = state_snapshot(self.h)
         cev = self.log.add("call", self.side, api=api, arg=arg_desc, before=before, qlen=before[5])
+        audit.enter_api()
         try:
             res = fn(*args)
         except BaseException as e:  # noqa: BLE001
+            audit.leave_api()
             import traceback
 
             tb = traceback.extract_tb(e.__traceback__)
@@ -189,6 +191,7 @@ class Endpoint:
             )
             self._track()
             raise
+        audit.leave_api()
         self.log.add("ret", self.side, api=api, call_seq=cev["seq"], after=state_snapshot(self.h), res=res if isinstance(res, bool) else None)
         self._track()
         return res
@@ -281,6 +284,17 @@ class World:
             (root / "dstdir").mkdir()
             self.src_inner = NativeFilestore()
             self.dst_inner = self.src_inner
+        elif c["fs"] == "mem_decoy":
+            # in-memory filestores whose path names also exist on the host, with *different* content (C16): a handler which goes
+            # behind the filestore's back reads decoy bytes / changes the host sandbox
+            self.sandbox = Path(tempfile.mkdtemp(prefix="cfdpmon-", dir=_scratch_base()))
+            root = self.sandbox
+            (root / "srcdir").mkdir()
+            (root / "dstdir").mkdir()
+            self.src_inner = MemFilestore()
+            self.dst_inner = MemFilestore()
+            self.src_inner.mkdir(root / "srcdir")
+            self.dst_inner.mkdir(root / "dstdir")
         else:
             nonce = f"{random.Random(c["size"] * 31 + zlib.crc32(repr(c["content"]).encode())).getrandbits(48):012x}"
             root = Path(f"/cfdpmon-nonexistent-{nonce}")
@@ -302,6 +316,12 @@ class World:
         if c["dest"] in ("existing", "dir_existing"):
             self.preexisting = b"OLD-CONTENT-" * 3 + bytes(range(40)) + self.data[::-1]
             self.write_raw("dst", self.dst_path, self.preexisting)
+        if c["fs"] == "mem_decoy":
+            if not c["metadata_only"]:
+                Path(self.src_path).write_bytes(b"DECOY-SOURCE-" + bytes(reversed(self.data)) + b"-HOST")
+            Path(root / "dstdir" / "host-decoy.bin").write_bytes(b"host file next to the destination")
+            if c["dest"] in ("existing", "dir_existing"):
+                Path(self.dst_path).write_bytes(b"DECOY-DESTINATION-ON-HOST")
         self.src_fs = RecFilestore(self.src_inner, self.log, "S")
         self.dst_fs = RecFilestore(self.dst_inner, self.log, "D")
 
@@ -317,10 +337,22 @@ class World:
         inner = self.src_inner if side == "src" else self.dst_inner
         if isinstance(inner, MemFilestore):
             return inner.get(path)
-        try:
-            return Path(path).read_bytes()
-        except (FileNotFoundError, IsADirectoryError, NotADirectoryError):
-            return None
+        with audit.allow():
+            try:
+                return Path(path).read_bytes()
+            except (FileNotFoundError, IsADirectoryError, NotADirectoryError):
+                return None
+
+    def host_tree(self) -> dict[str, Any]:
+        """snapshot of the host sandbox directory (path -> bytes | DIR), whatever filestore the handlers use"""
+        out: dict[str, Any] = {}
+        if self.sandbox is None:
+            return out
+        with audit.allow():
+            for p in sorted(self.sandbox.rglob("*")):
+                rel = p.relative_to(self.sandbox).as_posix()
+                out[rel] = "DIR" if p.is_dir() else p.read_bytes()
+        return out
 
     def dest_bytes(self) -> bytes | None:
         return self.read_raw("dst", self.dst_path)
@@ -329,12 +361,7 @@ class World:
         inner = self.src_inner if side == "src" else self.dst_inner
         if isinstance(inner, MemFilestore):
             return inner.tree()
-        out: dict[str, Any] = {}
-        assert self.sandbox is not None
-        for p in sorted(self.sandbox.rglob("*")):
-            rel = p.relative_to(self.sandbox).as_posix()
-            out[rel] = "DIR" if p.is_dir() else p.read_bytes()
-        return out
+        return self.host_tree()
 
     # -- handlers ------------------------------------------------------------------------------
     def _remote_cfg(self, entity_id, over: dict[str, Any]) -> RemoteEntityCfg:
